@@ -95,7 +95,7 @@ func (n *CNode) collectNew() []*EvInfo {
 	res := []*EvInfo{}
 	h := n.core.Head()
 	for h != "" && !n.view[h] {
-		ev, err := n.store.GetEvent(h)
+		ev, err := peekEvent(n.store, h)
 		if err != nil {
 			break
 		}
@@ -153,7 +153,7 @@ func fameOf(ri *hg.RoundInfo, h string) (bool, string) {
 func (n *CNode) valsObs(hashes []string) []interface{} {
 	res := []interface{}{}
 	for _, h := range hashes {
-		ev, err := n.store.GetEvent(h)
+		ev, err := peekEvent(n.store, h)
 		if err != nil {
 			res = append(res, map[string]interface{}{"e": n.w.idOf(h), "r": -9, "w": false, "l": -9})
 			continue
@@ -184,7 +184,7 @@ func (n *CNode) rrObs() []interface{} {
 	}
 	sort.Slice(hs, func(i, j int) bool { return n.w.events[hs[i]].Seq < n.w.events[hs[j]].Seq })
 	for _, h := range hs {
-		ev, err := n.store.GetEvent(h)
+		ev, err := peekEvent(n.store, h)
 		if err != nil {
 			continue
 		}
@@ -496,3 +496,23 @@ func (n *CNode) Observe(inserted []string, roundsFrom int, full bool) map[string
 }
 
 var _ = peers.NewPeer
+
+// peekEvent reads an event for observation without refreshing the store's LRU
+// cache (an observer that keeps events hot would hide evictions).
+func peekEvent(st hg.Store, h string) (*hg.Event, error) {
+	for {
+		switch s := st.(type) {
+		case *FaultStore:
+			st = s.Store
+			continue
+		case *RecStore:
+			st = s.Store
+			continue
+		case *TapStore:
+			st = s.Store
+			continue
+		}
+		break
+	}
+	return hg.VPeekEvent(st, h)
+}
